@@ -47,6 +47,10 @@ FSTRING_PROGRAMS = [
     ("dict-union-free", "d = {**{'a': 1}, 'b': 2}\nprint(sorted(d.items()))\n"),
     ("starred-index", "t = (1, 2)\nd = {(1, 2): 'x'}\nprint(d[t[0], t[1]])\n"),
     ("return-starred", "def f(a):\n    return (1, *a)\nprint(f([2, 3]))\n"),
+    ("walrus-in-displays", "print({(a := 5), 1} == {1, 5}, [(b := 2), b], ((c := 3), c), {(d := 4): d}, a)\n"),
+    ("walrus-in-call-and-subscript", "l = [1, 2, 3]\nprint(l[(i := 1)], max((j := 2), 1), i, j, f'{(k := 7)}', k)\n"),
+    ("starred-index-load", "t = (1, 2)\nd = {(1, 2, 3): 'x', (0, 1, 2): 'y'}\nprint(d[(*t, 3)], d[(0, *t)])\n"),
+    ("starred-index-load-in-function", "def f(d, t):\n    return d[(*t, 3)]\nprint(f({(1, 2, 3): 'x'}, (1, 2)))\n"),
 ]
 
 
@@ -76,6 +80,16 @@ def known_shape(name, src, key, rt, host, text=None):
                 continue
             if _literal_in_field(tree, kinds, new_host):
                 return "KF-D47"
+    # KF-D62: the stdlib unparser of a >= 3.11 host writes a tuple index without parentheses, also when it holds a
+    # starred item (`d[*t, 3]`, PEP 646 syntax): a SyntaxError on 3.8 - 3.10
+    if rt in ("3.8", "3.9", "3.10") and host in ("3.11", "3.12", "3.13") and key.startswith("ast.unparse|"):
+        try:
+            tree = ast.parse(src)
+        except (SyntaxError, ValueError, RecursionError):
+            return None
+        for n in ast.walk(tree):
+            if isinstance(n, ast.Subscript) and isinstance(n.ctx, ast.Load) and isinstance(n.slice, ast.Tuple) and any(isinstance(e, ast.Starred) for e in n.slice.elts):
+                return "KF-D62"
     return None
 
 
